@@ -8,3 +8,32 @@ pub mod oracle;
 pub mod spec;
 
 pub use spec::*;
+
+/// Executed at the start of every run of every engine: a fixed sequence of library calls (all 29
+/// easings at fixed positions, one fixed timeline evaluated at fixed times). If the library kept
+/// hidden state across calls (a cache, a memo, a thread-local), every run - in the worker pool or
+/// alone in a fresh replay process - would then start from the *same* hidden state, so a
+/// violation that depends on such state still replays exactly.
+pub fn normalise_hidden_state() {
+    use mina::prelude::*;
+    let mut acc = 0.0f32;
+    for e in 0..NUM_EASINGS {
+        acc += easing_calc(e, 0.3125) + easing_calc(e, 0.75);
+    }
+    let tl = TimelineBuilder::build(
+        Vals::timeline()
+            .duration_seconds(2.0)
+            .delay_seconds(0.5)
+            .reverse(true)
+            .repeat(Repeat::Times(1))
+            .default_easing(Easing::InOutQuad)
+            .keyframe(Vals::keyframe(0.0).a(1.0).n(3))
+            .keyframe(Vals::keyframe(0.625).a(-2.0).k(7).easing(Easing::OutCubic))
+            .keyframe(Vals::keyframe(1.0).a(4.0).n(-9)),
+    );
+    let mut v = Vals::default();
+    for t in [0.25f32, 1.0, 2.75, 4.0, 6.0] {
+        tl.update(&mut v, t);
+    }
+    std::hint::black_box((acc, v));
+}
